@@ -243,6 +243,11 @@ def gen_session(rng: random.Random, spec, *, p_invalid=0.0, p_query=0.0, p_reset
                 events.append([7])
             continue
         r = rng.random()
+        if r < p_obs and not env_mode and rng.random() < 0.1:
+            # a rejected observer construction (model event 10: nothing changes, ValidationError)
+            events.append([10, rng.randrange(4)])
+            stats["rejected_construction"] = stats.get("rejected_construction", 0) + 1
+            continue
         if r < p_obs:
             c = rng.random()
             if c < 0.35:
